@@ -58,3 +58,37 @@ int ctl_good(int fd, const char *buf, size_t n)
 	}
 	return 0;
 }
+
+/* K10-reposition: a retry on EINTR must not repeat a relative seek */
+#include <unistd.h>
+int ctl_seek_again(int fd, long off, int whence);
+int ctl_seek_once(int fd, long off, int whence);
+
+int ctl_seek_again(int fd, long off, int whence)
+{
+	long pos;
+	int ret;
+
+	do {
+		pos = lseek(fd, off, whence);		/* relative to where the last attempt left it */
+		if (pos < 0)
+			return -1;
+		ret = ftruncate(fd, pos);
+	} while (ret != 0 && errno == EINTR);
+
+	return ret;
+}
+
+int ctl_seek_once(int fd, long off, int whence)
+{
+	long pos = lseek(fd, off, whence);
+
+	if (pos < 0)
+		return -1;
+
+	while (ftruncate(fd, pos) != 0) {
+		if (errno != EINTR)
+			return -1;
+	}
+	return 0;
+}
